@@ -134,14 +134,14 @@ func (p *Parser) ReadPeek() {
 			// Skip Fastly control syntaxes
 			continue
 		case token.PRAGMA:
-			// Skip Fastly pgrama embedded data
-			for {
+			// Skip Fastly pgrama embedded data.
+			// The source may end inside the pragma: stop at EOF as well and deliver it.
+			for t.Type != token.SEMICOLON && t.Type != token.EOF {
 				t = p.tk.NextToken()
-				if t.Type == token.SEMICOLON {
-					break
-				}
 			}
-			continue
+			if t.Type == token.SEMICOLON {
+				continue
+			}
 		}
 		meta := ast.New(t, p.level, leading)
 		meta.PreviousEmptyLines = previousEmptyLines
